@@ -1,4 +1,6 @@
 """Rules T-dispatch, T-feature, T-precision over the E1 tables."""
+import re
+
 from ..facts import CheckError
 from ..sym import Sym, fmt
 from .intervals import Intervals
@@ -132,48 +134,280 @@ def t_dispatch(rep, prog, rule):
                         "kernel name `%s` differs from native `%s` (no corroboration)" % (seg, nseg))
 
 
+def _fn_consts(x, out):
+    """fn-item constants mentioned in a statement / terminator (a function handed on as a
+    value: reified to a pointer, passed to `map`, stored in a table)"""
+    if isinstance(x, list):
+        if len(x) == 3 and x[0] == "k" and isinstance(x[2], list) and x[2] and x[2][0] == "fn" \
+                and isinstance(x[2][1], dict):
+            out.append(x[2][1])
+            return
+        for y in x:
+            _fn_consts(y, out)
+
+
+def _expr_ty(prog, f, e):
+    """type string of a symbolic expression, as far as it can be told"""
+    if not isinstance(e, tuple) or not e:
+        return None
+    if e[0] in ("param", "local"):
+        return f.local_ty(e[1])
+    if e[0] in ("ref", "deref"):
+        t = _expr_ty(prog, f, e[1])
+        return t
+    if e[0] == "cast":
+        return _expr_ty(prog, f, e[2]) if e[1] in ("Transmute", "PtrToPtr") else (e[3] if len(e) > 3 else None)
+    if e[0] == "field" and isinstance(e[2], str):
+        bt = _expr_ty(prog, f, e[1])
+        if bt:
+            base = re.sub(r"<.*$", "", re.sub(r"^(&(?:'\w+ )?(?:mut )?)+", "", bt.strip()))
+            for k, a in prog.adts.items():
+                if (a["name"] == base or k.endswith("::" + base)) and len(a["variants"]) == 1:
+                    for fl in a["variants"][0]["fields"]:
+                        if fl[0] == e[2]:
+                            return fl[1]
+        return None
+    if e[0] in ("call", "callat"):
+        res = e[4] if e[0] == "callat" else e[3]
+        g = prog.fns.get(res) if isinstance(res, str) else None
+        return (g.d.get("output") if g is not None else None)
+    return None
+
+
+def _is_cpuext_ty(t):
+    return bool(t) and re.sub(r"^(&(?:'\w+ )?(?:mut )?)+", "", t.strip()).endswith("CpuExtensions")
+
+
+def _variant_constraint(prog, f, cond, val, allv, variants):
+    """(subject, set of variants) stated by one branch fact about a CpuExtensions value"""
+    from ..sym import unstable_locals
+    if cond[0] == "bin" and cond[1] in ("Eq", "Ne") and isinstance(val, bool):
+        # `extensions == CpuExtensions::Avx2` (derived PartialEq, constant resolved)
+        for a, k in ((cond[2], cond[3]), (cond[3], cond[2])):
+            if isinstance(k, tuple) and k and k[0] == "agg" and k[1] == "adt" and \
+                    str(k[2]).endswith("cpu_extensions::CpuExtensions") and k[3] in allv:
+                x = a
+                while isinstance(x, tuple) and x and x[0] in ("ref", "deref"):
+                    x = x[1]
+                if _is_cpuext_ty(_expr_ty(prog, f, x)) and not unstable_locals(x):
+                    same = (cond[1] == "Eq") == val
+                    return (x, frozenset({k[3]}) if same else (allv - {k[3]}))
+        return None
+    if cond[0] != "discr" or isinstance(val, bool):
+        return None
+    x = cond[1]
+    while isinstance(x, tuple) and x and x[0] in ("ref", "deref"):
+        x = x[1]
+    if not _is_cpuext_ty(_expr_ty(prog, f, x)) or unstable_locals(x):
+        return None
+    if isinstance(val, int):
+        return (x, frozenset({variants.get(val, "?%s" % val)}))
+    if isinstance(val, tuple) and val and val[0] == "not":
+        return (x, allv - {variants.get(v) for v in val[1]})
+    return None
+
+
+def variant_flow(prog, f, sym, variants):
+    """bb -> set of CpuExtensions variants that can be the selected one when bb runs, or None
+    where no branch on the way says anything. Forward dataflow over the CFG on sets of
+    variants, per tested value: an edge of a branch on the value (directly, through `==`, or
+    through the enum a crate-local selector derived from it: the branch fact is expanded)
+    intersects, a join unites -- so `a == X || a == Y` followed by a second test of `a == X`
+    is understood."""
+    allv = frozenset(variants.values())
+    cons = {}
+    for (p, s_, cond, val) in sym.edge_facts():
+        known = [(cond, val)]
+        work = list(known)
+        for _ in range(3):
+            new = [x for x in sym._expand_facts(work, known) if x not in known]
+            if not new:
+                break
+            known += new
+            work = new
+        for (c, v) in known:
+            r = _variant_constraint(prog, f, c, v, allv, variants)
+            if r:
+                cons.setdefault((p, s_), []).append(r)
+    subjects = []
+    for lst in cons.values():
+        for subj, _ in lst:
+            if subj not in subjects:
+                subjects.append(subj)
+    result = {}
+    for subj in subjects:
+        IN = {0: allv}
+        work = [0]
+        while work:
+            b = work.pop()
+            if f.blocks[b]["c"]:
+                continue
+            for nx in f.succ[b]:
+                out = IN[b]
+                for (sj, vs) in cons.get((b, nx), []):
+                    if sj == subj:
+                        out = out & vs
+                old = IN.get(nx)
+                new = out if old is None else (old | out)
+                if new != old:
+                    IN[nx] = new
+                    work.append(nx)
+        for b, vs in IN.items():
+            if vs != allv:
+                cur = result.get(b)
+                result[b] = vs if cur is None else (cur & vs)
+    return result
+
+
+def guard_variants(prog, f, sym, bb, variants, _cache={}):
+    key = (id(prog), f.id)
+    if key not in _cache:
+        _cache[key] = variant_flow(prog, f, sym, variants)
+    return _cache[key].get(bb)
+
+
+# (on aarch64 `neon` and on the wasm configuration `simd128` are baseline features: no demand)
+FEATURE_SITE_FLOOR = {"x86": 60, "x86-rayon": 60}
+
+
 def t_feature(rep, prog, rule):
-    rep.rule(rule, "the #[target_feature] sets reachable from a dispatcher arm without crossing "
-             "another dispatcher are implied by the matched CpuExtensions variant; no function "
-             "reachable from the safe public API outside such an arm needs a non-baseline feature")
-    variants, table = _dispatch_table(prog)
+    rep.rule(rule, "code compiled for a #[target_feature] set is entered only where a branch on a "
+             "CpuExtensions value has selected a variant that implies that set: every call, "
+             "closure or function value whose (transitive, unguarded) feature demand exceeds "
+             "what its own function is compiled for either sits behind such a branch -- then the "
+             "variants possible there must imply the demand -- or hands the demand on to its "
+             "callers; no function reachable from the safe public API is left with a demand. "
+             "The branch may be a match on the value itself or on the enum a crate-local selector "
+             "derived from it (facts are expanded through the selector)")
+    variants = enum_variants(prog, "cpu_extensions::CpuExtensions")
+    if not variants:
+        raise CheckError("enum CpuExtensions not found")
     base = closure_of(prog.config.get("target_features", []))
-    disp_ids = {sw.fn.id for sw, _ in table}
+    need_memo = {}
+    busy = set()
+    syms = {}
+    n_sites = [0]
     n_tf = sum(1 for f in prog.fns.values() if f.tf)
-    for sw, arms in table:
-        f = sw.fn
-        for vname, tgt in arms:
-            starts = []
-            for c in sw.arm_calls(tgt):
-                starts.extend(prog.call_targets(c))
-            feats = transitive_features(prog, starts, disp_ids)
-            allowed = closure_of(FEATURE_OF_VARIANT.get(vname, [])) | base
-            badf = sorted(x for x in feats if x not in allowed)
-            key = "%s|%s" % (f.name, vname)
+
+    def sym_of(f):
+        if f.id not in syms:
+            syms[f.id] = Sym(f)
+        return syms[f.id]
+
+    def closure_block(f, cid):
+        for b, blk in enumerate(f.blocks):
+            if blk["c"]:
+                continue
+            for st in blk["s"]:
+                if st[0] == "a" and st[2][0] == "agg" and st[2][1] == "closure" and st[2][2] == cid:
+                    return b
+        return None
+
+    def need(f):
+        """feature -> witness path: what f needs from whoever calls it"""
+        if f.id in need_memo:
+            return need_memo[f.id]
+        if f.id in busy:
+            return {}
+        busy.add(f.id)
+        own = closure_of(f.tf) | base
+        out = {}
+        sites = []          # (bb, label, {feat: path})
+        for b, blk in enumerate(f.blocks):
+            if blk["c"]:
+                continue
+            dem = {}
+            t = blk["t"]
+            if t[0] == "call":
+                c = f.call_in(b)
+                for feat in (c.callee.get("tf") or []):
+                    for x in closure_of([feat]):
+                        if x not in own:
+                            dem.setdefault(x, [c.name])
+                for g in prog.call_targets(c):
+                    for feat in closure_of(g.tf):
+                        if feat not in own:
+                            dem.setdefault(feat, [g.name])
+                    for feat, path in need(g).items():
+                        if feat not in own:
+                            dem.setdefault(feat, [g.name] + path)
+            consts = []
+            _fn_consts(blk["s"], consts)
+            if t[0] == "call":
+                _fn_consts(t[2], consts)
+            for cd in consts:
+                g = prog.fns.get(cd.get("res") or cd.get("id"))
+                if g is None:
+                    continue
+                for feat in closure_of(g.tf):
+                    if feat not in own:
+                        dem.setdefault(feat, ["fn value " + g.name])
+                for feat, path in need(g).items():
+                    if feat not in own:
+                        dem.setdefault(feat, ["fn value " + g.name] + path)
+            if dem:
+                sites.append((b, dem))
+        for cl in f.closures():
+            b = closure_block(f, cl.id)
+            dem = {}
+            for feat in closure_of(cl.tf):
+                if feat not in own:
+                    dem.setdefault(feat, [cl.name])
+            for feat, path in need(cl).items():
+                if feat not in own:
+                    dem.setdefault(feat, [cl.name] + path)
+            if dem:
+                if b is None:
+                    for feat, path in dem.items():
+                        out.setdefault(feat, path)
+                else:
+                    sites.append((b, dem))
+        for b, dem in sites:
+            n_sites[0] += 1
+            g = guard_variants(prog, f, sym_of(f), b, variants)
+            if g is None:
+                for feat, path in dem.items():
+                    out.setdefault(feat, path)
+                continue
+            rep.touch(f)
+            label = "+".join(sorted(g)) or "unreachable"
+            if not g:
+                continue
+            allowed = None
+            for v in g:
+                a = closure_of(FEATURE_OF_VARIANT.get(v, [])) | base
+                allowed = a if allowed is None else (allowed & a)
+            badf = sorted(x for x in dem if x not in allowed)
+            key = "%s|%s" % (f.name, label)
             if badf:
                 for x in badf:
                     rep.bad(rule, "%s|%s" % (key, x), f.loc,
                             "arm %s of %s reaches code compiled for `%s` via %s"
-                            % (vname, f.name, x, " -> ".join(feats[x])))
+                            % (label, f.name, x, " -> ".join(dem[x])))
             else:
-                rep.ok(rule, key, f.loc, "features %s" % sorted(set(feats) - base),
-                       nontrivial=bool(set(feats) - base))
-    # converse: safe, externally reachable functions never need a feature outside an arm
+                rep.ok(rule, key, f.loc, "features %s behind the branch on %s"
+                       % (sorted(dem), label), nontrivial=True)
+        busy.discard(f.id)
+        need_memo[f.id] = out
+        return out
+
+    for f in sorted(prog.fns.values(), key=lambda x: x.id):
+        need(f)
+    # no safe, externally reachable function is left with a demand
     n = 0
     for g in sorted(prog.fns.values(), key=lambda x: x.id):
-        if g.kind == "closure" or not g.reachable or g.is_unsafe or g.id in disp_ids:
+        if g.kind == "closure" or not g.reachable or g.is_unsafe:
             continue
-        feats = transitive_features(prog, [g], disp_ids)
-        badf = sorted(x for x in feats if x not in base)
         n += 1
-        if badf:
-            for x in badf:
-                rep.bad(rule, "public|%s|%s" % (g.name, x), g.loc,
-                        "safe public fn %s reaches `%s` code outside a dispatcher arm via %s"
-                        % (g.name, x, " -> ".join(feats[x])))
+        for x, path in sorted(need(g).items()):
+            rep.bad(rule, "public|%s|%s" % (g.name, x), g.loc,
+                    "safe public fn %s reaches `%s` code with no branch on a CpuExtensions "
+                    "value on the way: %s" % (g.name, x, " -> ".join(path)))
     rep.ok(rule, "public-entry-points", "", "%d safe public functions need no non-baseline "
-           "feature outside dispatcher arms; %d #[target_feature] functions in this cfg"
-           % (n, n_tf), nontrivial=n_tf > 0)
+           "feature; %d #[target_feature] functions in this cfg" % (n, n_tf), nontrivial=n_tf > 0)
+    if n_tf and FEATURE_SITE_FLOOR.get(rep.cfg):
+        rep.floor(rule, "call sites / function values with a feature demand", n_sites[0],
+                  FEATURE_SITE_FLOOR.get(rep.cfg, 0))
 
 
 # ---------------------------------------------------------------------------------------------
